@@ -608,7 +608,12 @@ func (h *hdHist) playHandSteps(maxSteps int) bool {
 				return false
 			}
 			if gs.HasAction(cur, "pass") {
-				h.submit(actSpec{gameIDs[cur], "pass", 0}, false, false)
+				// the pass of a folded / all-in player is a backend call like any other: it can fail and be sent again
+				fault := h.r.Intn(100) < h.faultPct
+				err := h.submit(actSpec{gameIDs[cur], "pass", 0}, false, fault)
+				if fault && err != nil {
+					h.submit(actSpec{gameIDs[cur], "pass", 0}, false, false)
+				}
 				break
 			}
 			if h.actionTime == 1 && !h.lateDone && h.r.Intn(3) == 0 {
@@ -772,6 +777,7 @@ func genHDHistory(r *rand.Rand, st *hdStats, hid int, hands int, faultPct, probe
 		// now and then the backend refuses to create the hand (a remote hand engine that is down; with the native one, a
 		// dealt-in player without chips): the table has opened a hand that does not exist — nobody can act in it
 		failStart := r.Intn(14) == 0
+		nCallsPre := len(h.be.Calls())
 		if failStart {
 			h.be.muF.Lock()
 			h.be.FailKind = "create"
@@ -785,12 +791,25 @@ func genHDHistory(r *rand.Rand, st *hdStats, hid int, hands int, faultPct, probe
 		}
 		h.t0 = time.Now().Unix()
 		if failStart {
-			waitFor(1500*time.Millisecond, func() bool { return rig.live().State.GameCount == gcPre+1 })
+			// the fault stays armed until the backend has been asked to create the hand (and has refused)
+			refusedCreate := func() bool {
+				cs := h.be.Calls()
+				for i := nCallsPre; i < len(cs); i++ {
+					if cs[i].Kind == "create" {
+						return cs[i].Err != ""
+					}
+				}
+				return false
+			}
+			got := waitFor(2*time.Second, refusedCreate)
 			time.Sleep(3 * time.Millisecond)
 			schedBarrier(3)
 			h.be.muF.Lock()
 			h.be.FailKindLeft = 0
 			h.be.muF.Unlock()
+			if !got {
+				break // the hand was not even tried (or the refusal went elsewhere): nothing to compare
+			}
 			t := rig.live()
 			h.line("hd failedstart gc=%d st=%s hasgame=%s", t.State.GameCount, statusShort(t.State.Status), b01(t.State.GameState != nil))
 			st.FailedStarts++
